@@ -113,8 +113,8 @@ func modMathMod(ctx *Ctx, buf *any, val any, args []any) (err error) {
 	return
 }
 
-func modMathSqrt(ctx *Ctx, buf *any, val any, _ []any) (err error) {
-	f, ok := floatConv(val)
+func modMathSqrt(ctx *Ctx, buf *any, val any, args []any) (err error) {
+	f, ok := floatConvAny(val, args)
 	if !ok {
 		return
 	}
@@ -124,8 +124,8 @@ func modMathSqrt(ctx *Ctx, buf *any, val any, _ []any) (err error) {
 	return
 }
 
-func modMathCbrt(ctx *Ctx, buf *any, val any, _ []any) (err error) {
-	f, ok := floatConv(val)
+func modMathCbrt(ctx *Ctx, buf *any, val any, args []any) (err error) {
+	f, ok := floatConvAny(val, args)
 	if !ok {
 		return
 	}
@@ -165,8 +165,8 @@ func modMathRadical(ctx *Ctx, buf *any, val any, args []any) (err error) {
 	return
 }
 
-func modMathExp(ctx *Ctx, buf *any, val any, _ []any) (err error) {
-	f, ok := floatConv(val)
+func modMathExp(ctx *Ctx, buf *any, val any, args []any) (err error) {
+	f, ok := floatConvAny(val, args)
 	if !ok {
 		return
 	}
@@ -176,8 +176,8 @@ func modMathExp(ctx *Ctx, buf *any, val any, _ []any) (err error) {
 	return
 }
 
-func modMathLog(ctx *Ctx, buf *any, val any, _ []any) (err error) {
-	f, ok := floatConv(val)
+func modMathLog(ctx *Ctx, buf *any, val any, args []any) (err error) {
+	f, ok := floatConvAny(val, args)
 	if !ok {
 		return
 	}
